@@ -8,7 +8,7 @@ import numpy as np
 from hypothesis import strategies as st
 
 from vlib import cards, env, gen
-from vlib.api import Sub, Violation, oracle
+from vlib.api import run_pinned, Sub, Violation, oracle
 
 RULE = (
     "history on one generated 3-body toy model (2 chains, 40-80 data / 150-250 phase-space events): constraint set drawn from {fixed, tied (var_equal), bounded two-/one-sided (var_range), Gaussian}, "
@@ -282,6 +282,7 @@ def run_histories(ctx):
 
 
 SUBCHECKS = [
+    Sub("pinned", run_pinned, shards=(1, 1), budget=(200, 600)),
     Sub("methods", run_methods, shards=(12, 12), budget=(280, 3000), weight=3),
     Sub("histories", run_histories, shards=(4, 12), budget=(280, 3000)),
 ]
